@@ -7,6 +7,11 @@ import scipy.sparse as sp
 from .. import coqrun as cq
 from .. import gen
 
+def _nn(v):
+    """NaN counts as 'exceeds every bound' in the oracle comparisons"""
+    return np.inf if np.isnan(v) else v
+
+
 TECHNIQUE = 'Coq proof that modified Gram-Schmidt with drop threshold reconstructs the candidates + bit-exact fit_candidates correspondence + prolongator oracle'
 LEVEL_TEXT = ('Kernel-checked theorems (Props/C10.v) about the Gallina model of fit_candidates over any field and for any '
               'function used as square root: for every aggregate, candidate block and threshold, each kept column of the '
@@ -89,14 +94,17 @@ def run(ctx):
                 ctx.fail('fit_candidates/raises', repr(e), dict(case, complex=cplx))
                 continue
             Qd = Q.toarray()
+            if not (np.all(np.isfinite(Qd)) and np.all(np.isfinite(Rc))):
+                ctx.fail('fit_candidates/non-finite', 'T or the coarse candidates contain inf/NaN (mode %s)' % mode, dict(case, complex=cplx))
+                continue
             G = Qd.conj().T @ Qd
             dg = np.real(np.diag(G))
             cs = dict(case, complex=cplx)
-            if np.abs(G - np.diag(np.diag(G))).max() > 1e-10 or np.any((np.abs(dg - 1) > 1e-10) & (np.abs(dg) > 1e-10)):
+            if _nn(np.abs(G - np.diag(np.diag(G))).max()) > 1e-10 or np.any((np.abs(dg - 1) > 1e-10) & (np.abs(dg) > 1e-10)):
                 ctx.fail('fit_candidates/columns-not-orthonormal-or-zero', 'max offdiag %.3g, norms %s' % (np.abs(G - np.diag(np.diag(G))).max(), dg), cs)
             agg_rows = np.repeat(np.diff(AggOp.indptr) > 0, K1)
             defect = (Qd @ Rc - Bc)[agg_rows]
-            if tol <= 1e-10 and mode in ('plain', 'float') and np.abs(defect).max() > 1e-9 * (1 + np.abs(Bc).max()):
+            if tol <= 1e-10 and mode in ('plain', 'float') and _nn(np.abs(defect).max()) > 1e-9 * (1 + np.abs(Bc).max()):
                 ctx.fail('fit_candidates/does-not-reproduce-B', '|T B_c - B| = %.3g on aggregated rows' % np.abs(defect).max(), cs)
             if np.abs(Qd[~agg_rows]).max(initial=0) != 0:
                 ctx.fail('fit_candidates/unaggregated-row-nonzero', '', cs)
@@ -121,26 +129,30 @@ def smoothers(ctx):
     A, B = linear_elasticity((4, 4))
     probs.append(('elasticity-4x4', sp.bsr_array(A, blocksize=(2, 2)), B))
     variants = [('jacobi', {}), ('jacobi', {'degree': 2, 'omega': 1.0}), ('jacobi', {'filter_entries': True}),
+                ('jacobi', {'filter_entries': True, 'degree': 2}), ('jacobi', {'filter_entries': True, 'degree': 3, 'weighting': 'local'}),
                 ('jacobi', {'weighting': 'local'}), ('richardson', {}),
                 ('energy', {'krylov': 'cg', 'maxiter': 2}), ('energy', {'krylov': 'cgnr', 'maxiter': 2}),
                 ('energy', {'krylov': 'gmres', 'maxiter': 3, 'degree': 2}), ('energy', {'krylov': 'cg', 'weighting': 'diagonal'}), None]
     for pname, A, B in probs:
         for sm in variants:
-            for ctor in ('sa', 'rootnode'):
+            for ctor, aggr in (('sa', 'standard'), ('rootnode', 'standard'), ('rootnode', 'naive'),
+                               ('rootnode', ('lloyd', {'ratio': 0.25, 'maxiter': 3})), ('sa', ('lloyd', {'ratio': 0.25, 'maxiter': 3}))):
                 if ctor == 'rootnode' and (sm is None or sm[0] != 'energy'):
                     continue
-                case = dict(problem=pname, smooth=sm, constructor=ctor)
+                if aggr != 'standard' and not (sm is not None and sm[0] == 'energy' and sm[1].get('krylov') in ('cg', 'gmres')):
+                    continue          # other aggregations (root nodes not in index order): energy smoothing only
+                case = dict(problem=pname, smooth=sm, constructor=ctor, aggregate=aggr)
                 ctx.mark(case)
                 np.random.seed(ctx.seed)
                 try:
                     with warnings.catch_warnings():
                         warnings.simplefilter('ignore')
                         f = pyamg.smoothed_aggregation_solver if ctor == 'sa' else pyamg.rootnode_solver
-                        ml = f(A, B=B.copy(), smooth=sm, max_coarse=4, keep=True, improve_candidates=None)
+                        ml = f(A, B=B.copy(), smooth=sm, aggregate=aggr, max_coarse=4, keep=True, improve_candidates=None)
                 except Exception as e:   # noqa
                     ctx.fail('constructor/raises', repr(e), case)
                     continue
-                ctx.case((pname, repr(sm), ctor), len(ml.levels) > 1)
+                ctx.case((pname, repr(sm), ctor, repr(aggr)), len(ml.levels) > 1)
                 ctx.count('smooth:' + (sm[0] if sm else 'none'))
                 for l in range(len(ml.levels) - 1):
                     L, Lc = ml.levels[l], ml.levels[l + 1]
@@ -148,24 +160,30 @@ def smoothers(ctx):
                     Bf, Bc = L.B, Lc.B
                     cs = dict(case, level=l)
                     scale = 1 + np.abs(Bf).max()
-                    if np.abs(T @ Bc - Bf).max() > 1e-8 * scale and ctor == 'sa':
+                    if _nn(np.abs(T @ Bc - Bf).max()) > 1e-8 * scale and ctor == 'sa':
                         ctx.fail('tentative/does-not-reproduce-B', '|T B_c - B| = %.3g' % np.abs(T @ Bc - Bf).max(), cs)
                     constrained = sm is not None and (sm[0] == 'energy' or sm[1].get('filter_entries'))
                     if constrained:
-                        if ctor == 'sa' and np.abs(P @ Bc - Bf).max() > 1e-7 * scale:
+                        if ctor == 'sa' and _nn(np.abs(P @ Bc - Bf).max()) > 1e-7 * scale:
                             ctx.fail('smoothing/%s/changes-P-B' % sm[0], '|P B_c - B| = %.3g' % np.abs(P @ Bc - Bf).max(), cs)
                         # pattern: |A|^degree |T| (energy) or the strength-filtered pattern
                         deg = sm[1].get('degree', 1)
-                        Sabs = np.abs(L.A.toarray())
-                        pat = (np.linalg.matrix_power(Sabs, deg) @ np.abs(T)) != 0
+                        # the pattern is defined on blocks: (block pattern of A)^degree times the aggregate membership,
+                        # every block full (entries of A or T that happen to be zero do not shrink it)
+                        bf = L.A.blocksize[0] if sp.issparse(L.A) and L.A.format == 'bsr' else 1
+                        bc = P.shape[1] // L.AggOp.shape[1]
+                        nf = P.shape[0] // bf
+                        Ad_ = np.abs(L.A.toarray()).reshape(nf, bf, nf, bf).sum(axis=(1, 3)) != 0
+                        node_pat = (np.linalg.matrix_power(Ad_.astype(float) + np.eye(nf), deg) @ np.abs(L.AggOp.toarray())) != 0
+                        pat = np.kron(node_pat, np.ones((bf, bc))) != 0
                         if sm[0] == 'energy' and np.any((P != 0) & ~pat & (np.abs(T) == 0)):
                             ctx.fail('smoothing/energy/outside-pattern', 'entries outside the allowed sparsity pattern', cs)
                     if ctor == 'rootnode':
                         Cpts = L.Cpts
                         rows = np.asarray(Cpts)          # degree-of-freedom indices of the root nodes
-                        if np.abs(P[rows] - np.eye(P.shape[1])).max() > 1e-12:
+                        if _nn(np.abs(P[rows] - np.eye(P.shape[1])).max()) > 1e-12:
                             ctx.fail('rootnode/identity-rows', 'rows of P at the root nodes are not the identity', cs)
-                        if np.abs(Bf[rows] - Bc).max() > 1e-12 * scale:
+                        if _nn(np.abs(Bf[rows] - Bc).max()) > 1e-12 * scale:
                             ctx.fail('rootnode/coarse-candidates-not-injected', '', cs)
                 # polynomial identity for unconstrained Jacobi / Richardson on level 0
                 if sm is not None and sm[0] in ('jacobi', 'richardson') and not sm[1].get('filter_entries') and len(ml.levels) > 1:
@@ -187,7 +205,7 @@ def smoothers(ctx):
                         X = np.eye(Ad.shape[0]) - DinvA
                         want = np.linalg.matrix_power(X, deg) @ T
                         if sm[1].get('weighting') == 'local':
-                            if np.abs(Pd - want).max() > 1e-10:
+                            if _nn(np.abs(Pd - want).max()) > 1e-10:
                                 ctx.fail('smoothing/jacobi/not-polynomial', '|P - (I - w D^-1 A)^d T| = %.3g' % np.abs(Pd - want).max(), case)
                         else:
                             # P = (I - c D^-1 A)^d T for SOME scalar c close to omega/rho: fit c on degree 1
@@ -196,7 +214,7 @@ def smoothers(ctx):
                                 num = np.vdot(DA, T - Pd)
                                 c = num / np.vdot(DA, DA)
                                 rho = max(abs(np.linalg.eigvals(Ad / np.diag(Ad)[:, None])))
-                                if np.abs(Pd - (T - c * DA)).max() > 1e-10 or not (om / rho * 0.99 <= c.real <= om / (0.85 * rho)):
+                                if _nn(np.abs(Pd - (T - c * DA)).max()) > 1e-10 or not (om / rho * 0.99 <= c.real <= om / (0.85 * rho)):
                                     ctx.fail('smoothing/jacobi/not-polynomial', 'P is not T - c D^-1 A T with c ~ omega/rho (c=%r)' % c, case)
 
 
